@@ -22,6 +22,9 @@ func runL2(p *l2Profile) func(r *core.Run) *core.Violation {
 		pp := *p
 		w := newL2World(r, &pp)
 		nb := p.Blocks[0] + r.Intn(p.Blocks[1]-p.Blocks[0]+1)
+		if r.Tier == "thorough" && r.Chance(1, 4) {
+			nb *= 3
+		}
 		for i := 0; i < nb; i++ {
 			if v := w.runBlock(); v != nil {
 				return v
